@@ -110,7 +110,11 @@ DetList == <<
    DT(<<"sum", "mul2">>, <<>>, <<>>, 9),                                   \* ce domain 512 * 2 = 1024
    DT(<<"cube", "mulper", "pcol">>, <<128>>, Aux2, 8),                    \* ce domain 256 * 4 = 1024, aux + periodic
    DT(<<"mulper", "sum", "pcol">>, <<1024>>, Aux2, 11),                   \* ce domain 2048 * 4 = 8192, long cycle
-   [DT(<<"per", "mul2">>, <<2048>>, <<[width |-> 1, rands |-> 1, src |-> <<0>>]>>, 12) EXCEPT !.blowup = 4, !.ext = 2]  \* 4096 * 2 = 8192
+   [DT(<<"per", "mul2">>, <<2048>>, <<[width |-> 1, rands |-> 1, src |-> <<0>>]>>, 12) EXCEPT !.blowup = 4, !.ext = 2],  \* 4096 * 2 = 8192
+   \* wide traces: 3 and 5 row-major segments of 8 columns (segment counts that are not powers of two)
+   \* over small LDE domains (1024 / 2048 rows), where the matrix transposition is split into batches
+   DT(Wide(20), <<>>, <<>>, 7),
+   [DT(Wide(40), <<>>, Aux3, 8) EXCEPT !.ext = 2]
 >>
 DetOk == \A i \in 1..Len(DetList) : Supported(DetList[i])
 EmitDet == (phase = "field") => \A i \in 1..Len(DetList) : PrintT(<<"DET", ToJson(CaseOf(DetList[i]))>>)
